@@ -191,6 +191,29 @@ class FlagThread(ast.NodeTransformer):
                             i += 2
                             changed[0] = True
                             continue
+                # shape 3: an if-tree every leaf of which ends in `x = ...`, directly followed by `if <x is None / x / not x ...>:`
+                # -> the second statement is moved into the leaves, decided where the leaf assigns a constant
+                if isinstance(a, ast.If) and isinstance(b, ast.If) and a.orelse:
+                    x = _sentinel_test_name(b.test)
+                    leaves = _leaf_assignments(a, x) if x else None
+                    if leaves and x not in params and not _mentions([a.test], x):
+                        live = []
+                        for blk_, k in leaves:
+                            v = _decide(b.test, x, blk_[k].value)
+                            sel = b.body if v is True else b.orelse if v is False else None
+                            live.append((blk_, k, v, sel))
+                        copies = sum(1 for _, _, v, sel in live if v is None or sel)
+                        size = sum(1 for s_ in ast.walk(b) if isinstance(s_, ast.stmt))
+                        if copies <= 1 or size <= 3:
+                            for blk_, k, v, sel in live:
+                                if v is None:
+                                    blk_.insert(k + 1, copy_tree(b))
+                                elif sel:
+                                    blk_[k + 1:k + 1] = [copy_tree(s_) for s_ in sel]
+                            out.append(a)
+                            i += 2
+                            changed[0] = True
+                            continue
                 out.append(a)
                 i += 1
             return out
@@ -204,6 +227,55 @@ class FlagThread(ast.NodeTransformer):
                 setattr(owner, fld, new)
         rec(fn)
         return changed[0]
+
+
+def _sentinel_test_name(test):
+    """x for tests `x`, `not x`, `x is None`, `x is not None`, `x == None` ... else None"""
+    e = test
+    while isinstance(e, ast.UnaryOp) and isinstance(e.op, ast.Not):
+        e = e.operand
+    if isinstance(e, ast.Name):
+        return e.id
+    if isinstance(e, ast.Compare) and len(e.ops) == 1 and isinstance(e.left, ast.Name) and isinstance(e.comparators[0], ast.Constant) and \
+            e.comparators[0].value is None and isinstance(e.ops[0], (ast.Is, ast.IsNot, ast.Eq, ast.NotEq)):
+        return e.left.id
+    return None
+
+
+def _decide(test, x, value):
+    """truth of the sentinel test when x was just assigned `value` (constants only), else None"""
+    if not isinstance(value, ast.Constant):
+        return None
+    v = value.value
+    neg = False
+    e = test
+    while isinstance(e, ast.UnaryOp) and isinstance(e.op, ast.Not):
+        neg = not neg
+        e = e.operand
+    if isinstance(e, ast.Name):
+        r = bool(v)
+    else:
+        r = (v is None) if isinstance(e.ops[0], (ast.Is, ast.Eq)) else (v is not None)
+    return r != neg
+
+
+def _leaf_assignments(node, x):
+    """[(block, index)] of the trailing `x = ..` of every leaf of an if-tree with else branches throughout, or None"""
+    out = []
+
+    def leaf(blk):
+        if not blk:
+            return False
+        last = blk[-1]
+        if isinstance(last, ast.Assign) and len(last.targets) == 1 and isinstance(last.targets[0], ast.Name) and last.targets[0].id == x:
+            out.append((blk, len(blk) - 1))
+            return True
+        if isinstance(last, ast.If) and last.orelse:
+            return leaf(last.body) and leaf(last.orelse)
+        if isinstance(last, (ast.Return, ast.Raise)):
+            return True          # this path never reaches the test
+        return False
+    return out if leaf(node.body) and leaf(node.orelse) and out else None
 
 
 class _SubstTable(ast.NodeTransformer):
@@ -340,6 +412,129 @@ def literal_tables(tree):
     return out
 
 
+class CounterInduction(ast.NodeTransformer):
+    """a counter that is incremented once per iteration is a function of the loop variables:
+         k = 0 / for r in range(R): for c in range(C): ..k.. ; k += 1      ->   k  ==  c + r * C   inside the inner body
+         k = 0 / for x in IT: ..k.. ; k += 1                               ->   for k, x in enumerate(IT): ..k..
+    (the increment is the last statement of the body, which has no continue / break; k is not read after the loop)"""
+
+    def visit_FunctionDef(self, fn):
+        self.generic_visit(fn)
+
+        def rec(node):
+            for owner, fld, blk in list(_blocks(node)):
+                for st in blk:
+                    if not isinstance(st, (ast.FunctionDef, ast.AsyncFunctionDef, ast.ClassDef)):
+                        rec(st)
+                setattr(owner, fld, self._rewrite(blk))
+        rec(fn)
+        return fn
+
+    visit_AsyncFunctionDef = visit_FunctionDef
+
+    @staticmethod
+    def _range1(it):
+        return it.args[0] if isinstance(it, ast.Call) and isinstance(it.func, ast.Name) and it.func.id == 'range' and len(it.args) == 1 \
+            and not it.keywords else None
+
+    @staticmethod
+    def _incr(st, k):
+        return isinstance(st, ast.AugAssign) and isinstance(st.op, ast.Add) and isinstance(st.target, ast.Name) and st.target.id == k and \
+            isinstance(st.value, ast.Constant) and st.value.value == 1
+
+    def _rewrite(self, blk):
+        out = list(blk)
+        for i, init in enumerate(blk):
+            if not (isinstance(init, ast.Assign) and len(init.targets) == 1 and isinstance(init.targets[0], ast.Name) and
+                    isinstance(init.value, ast.Constant) and init.value.value == 0 and not isinstance(init.value.value, bool)):
+                continue
+            k = init.targets[0].id
+            j = i + 1
+            while j < len(blk) and not _mentions([blk[j]], k):
+                j += 1
+            if j >= len(blk) or not isinstance(blk[j], ast.For) or blk[j].orelse or _mentions(blk[j + 1:], k) or \
+                    _mentions([blk[j].target, blk[j].iter], k):
+                continue
+            loop = blk[j]
+            stores = lambda stmts: sum(1 for s_ in stmts for n in ast.walk(s_) if isinstance(n, ast.Name) and n.id == k and isinstance(n.ctx, (ast.Store, ast.Del)))
+            # single loop
+            if loop.body and self._incr(loop.body[-1], k) and stores(loop.body) == 1 and not _has_loop_jump(loop.body) and isinstance(loop.target, (ast.Name, ast.Tuple)):
+                loop.body = loop.body[:-1] or [ast.copy_location(ast.Pass(), loop)]
+                loop.target = ast.copy_location(ast.Tuple(elts=[ast.Name(id=k, ctx=ast.Store()), loop.target], ctx=ast.Store()), loop.target)
+                loop.iter = ast.copy_location(ast.Call(func=ast.Name(id='enumerate', ctx=ast.Load()), args=[loop.iter], keywords=[]), loop.iter)
+                out = [s_ for s_ in out if s_ is not init]
+                continue
+            # two nested range loops
+            R = self._range1(loop.iter)
+            inner = loop.body[-1] if loop.body and isinstance(loop.body[-1], ast.For) else None
+            if R is None or inner is None or inner.orelse or _mentions(loop.body[:-1], k) or not isinstance(loop.target, ast.Name) or \
+                    not isinstance(inner.target, ast.Name):
+                continue
+            C = self._range1(inner.iter)
+            if C is None or not inner.body or not self._incr(inner.body[-1], k) or stores(inner.body) != 1 or _has_loop_jump(inner.body) or \
+                    any(isinstance(n, ast.Call) for n in ast.walk(C)):
+                continue
+            made_of = {n.id for n in ast.walk(C) if isinstance(n, ast.Name)}
+            if any(isinstance(n, ast.Name) and n.id in made_of and isinstance(n.ctx, ast.Store) for s_ in loop.body for n in ast.walk(s_)):
+                continue
+            form = ast.BinOp(left=ast.Name(id=inner.target.id, ctx=ast.Load()), op=ast.Add(),
+                             right=ast.BinOp(left=ast.Name(id=loop.target.id, ctx=ast.Load()), op=ast.Mult(), right=C))
+            inner.body = [_SubstTable({k: form}).visit(s_) for s_ in inner.body[:-1]] or [ast.copy_location(ast.Pass(), inner)]
+            out = [s_ for s_ in out if s_ is not init]
+        return out
+
+
+class LambdaInline(ast.NodeTransformer):
+    """`p = lambda t: E` (bound once, every use a direct call `p(a)` with plain arguments)  ->  E[t := a] at the calls"""
+
+    def visit_FunctionDef(self, fn):
+        self.generic_visit(fn)
+        binds, loads, stores = {}, {}, {}
+        for n in ast.walk(fn):
+            if isinstance(n, ast.Name):
+                d = loads if isinstance(n.ctx, ast.Load) else stores
+                d[n.id] = d.get(n.id, 0) + 1
+            if isinstance(n, ast.Assign) and len(n.targets) == 1 and isinstance(n.targets[0], ast.Name) and isinstance(n.value, ast.Lambda):
+                binds[n.targets[0].id] = n
+        params = {a.arg for a in ast.walk(fn.args) if isinstance(a, ast.arg)}
+        for name, asg in binds.items():
+            lam = asg.value
+            la = lam.args
+            if stores.get(name, 0) != 1 or name in params or la.vararg or la.kwarg or la.kwonlyargs or la.defaults or la.posonlyargs:
+                continue
+            ps = [a.arg for a in la.args]
+            calls = [n for n in ast.walk(fn) if isinstance(n, ast.Call) and isinstance(n.func, ast.Name) and n.func.id == name]
+            if len(calls) != loads.get(name, 0) or not calls:
+                continue
+            if not all(len(c.args) == len(ps) and not c.keywords and all(isinstance(x, (ast.Name, ast.Constant, ast.Attribute)) for x in c.args) for c in calls):
+                continue
+            free = {n.id for n in ast.walk(lam.body) if isinstance(n, ast.Name)} - set(ps)
+            if any(stores.get(f, 0) > 1 for f in free):
+                continue            # a free variable of the lambda is rebound: the call site would see another value
+            ids = {id(c): c for c in calls}
+
+            class R(ast.NodeTransformer):
+                def visit_Call(self, n):
+                    self.generic_visit(n)
+                    if id(n) in ids:
+                        m = dict(zip(ps, n.args))
+                        return ast.copy_location(_SubstTable(m).visit(copy_tree(lam.body)), n)
+                    return n
+            R().visit(fn)
+
+            def drop(node):
+                for owner, fld, blk in list(_blocks(node)):
+                    new = [s_ for s_ in blk if s_ is not asg]
+                    for s_ in new:
+                        if not isinstance(s_, (ast.FunctionDef, ast.AsyncFunctionDef, ast.ClassDef)):
+                            drop(s_)
+                    setattr(owner, fld, new or [ast.copy_location(ast.Pass(), asg)])
+            drop(fn)
+        return fn
+
+    visit_AsyncFunctionDef = visit_FunctionDef
+
+
 def simplify_tree(tree):
     """apply the normal forms to a module tree (in place) -> tree"""
     from .model import _InlineTemps
@@ -357,6 +552,8 @@ def simplify_tree(tree):
                         bound_in_fns.add(n.id)
     consts = {k: v for k, v in consts.items() if k.lstrip('.') not in bound_in_fns or k.startswith('.')}
     tree = TableUnroll(consts).visit(tree)
+    tree = LambdaInline().visit(tree)
+    tree = CounterInduction().visit(tree)
     tree = FlagThread().visit(tree)
     tree = _DoubleNot().visit(tree)
     tree = _InlineTemps().visit(tree)
